@@ -100,6 +100,78 @@ func c11Loosen(t *rapid.T, n *model.Node) *model.Node {
 	return &c
 }
 
+// c11Complement returns a node of n's kind that states only limits n leaves
+// unstated (minimum where n has none, maxLength where n has none, ...): the
+// conjunction must enforce both branches' parts. ok=false when n states all.
+func c11Complement(t *rapid.T, n *model.Node) (*model.Node, bool) {
+	c := &model.Node{Kind: n.Kind}
+	any := false
+	switch n.Kind {
+	case model.KInteger, model.KNumber:
+		if n.Minimum == nil {
+			hi := 5.0
+			if n.Maximum != nil && *n.Maximum < hi {
+				hi = *n.Maximum
+			}
+			v := float64(rapid.IntRange(1, int(hi)).Draw(t, "cmin"))
+			c.Minimum, any = &v, true
+		}
+		if n.Maximum == nil && n.Kind == model.KInteger {
+			lo := 5.0
+			if n.Minimum != nil && *n.Minimum > lo {
+				lo = *n.Minimum
+			}
+			v := float64(rapid.IntRange(int(lo), 10).Draw(t, "cmax"))
+			c.Maximum, any = &v, true
+		}
+	case model.KString:
+		if n.MinLength == nil {
+			c.MinLength, any = model.IntP(rapid.IntRange(1, 3).Draw(t, "cminlen")), true
+		}
+		if n.MaxLength == nil {
+			c.MaxLength, any = model.IntP(rapid.IntRange(3, 6).Draw(t, "cmaxlen")), true
+		}
+	}
+	return c, any
+}
+
+// addCollidingAllOfLists: two object schemas that get the same Go type name
+// (colev.ent and colev_ent -> <Root>ColevEnt) and are equal except inside an
+// allOf list: the second list has one more branch, which requires a bounded
+// "severity". Each position must enforce its own list.
+func addCollidingAllOfLists(t *rapid.T, c *core.Ctx, f *model.File) []map[string]string {
+	b1 := func() *model.Node {
+		return &model.Node{Kind: model.KObject, Props: []model.Prop{{Name: "kind", Node: &model.Node{Kind: model.KString}}}, Required: []string{"kind"}}
+	}
+	b2 := func() *model.Node {
+		return &model.Node{Kind: model.KObject, Props: []model.Prop{{Name: "source", Node: &model.Node{Kind: model.KString}}}}
+	}
+	b3 := &model.Node{Kind: model.KObject, Props: []model.Prop{{Name: "severity", Node: &model.Node{Kind: model.KInteger, Minimum: model.FloatP(1), Maximum: model.FloatP(5)}}}, Required: []string{"severity"}}
+	ev := func(branches ...*model.Node) *model.Node {
+		return &model.Node{Kind: model.KObject, Props: []model.Prop{
+			{Name: "id", Node: &model.Node{Kind: model.KString}},
+			{Name: "data", Node: &model.Node{Kind: model.KAllOf, Branches: branches}},
+		}, Required: []string{"data"}}
+	}
+	short, long := ev(b1(), b2()), ev(b1(), b2(), b3)
+	// which of the two is generated first (properties are visited in sorted order: "colev" < "colev_ent")
+	inner, flat := short, long
+	if rapid.Bool().Draw(t, "longfirst") {
+		inner, flat = long, short
+	}
+	f.Root.Props = append(f.Root.Props,
+		model.Prop{Name: "colev", Node: &model.Node{Kind: model.KObject, Props: []model.Prop{{Name: "ent", Node: inner}}, Required: []string{"ent"}}},
+		model.Prop{Name: "colev_ent", Node: flat})
+	c.Count("shape.colliding_types_differ_inside_allof")
+	with, without, bad := `{"data":{"kind":"k","severity":3}}`, `{"data":{"kind":"k"}}`, `{"data":{"kind":"k","severity":9}}`
+	wrap := func(s string) string { return `{"ent":` + s + `}` }
+	return []map[string]string{
+		{"colev": wrap(with)}, {"colev": wrap(without)}, {"colev": wrap(bad)},
+		{"colev_ent": with}, {"colev_ent": without}, {"colev_ent": bad},
+		{"colev": wrap(with), "colev_ent": with},
+	}
+}
+
 type c11Case struct {
 	file       *model.File
 	comp       *model.Node
@@ -139,7 +211,27 @@ func genC11(t *rapid.T, c *core.Ctx) *c11Case {
 			if prev, ok := first[name]; ok {
 				zeroLimit := (prev.Minimum != nil && *prev.Minimum == 0) || (prev.Maximum != nil && *prev.Maximum == 0)
 				// (a first-branch limit of 0 counts as unset for the merge: part of the same open finding)
-				if kind == model.KAllOf && !diffAllowed && !zeroLimit && rapid.Bool().Draw(t, "looser") {
+				if comp, ok := c11Complement(t, prev); ok && kind == model.KAllOf && !zeroLimit && rapid.IntRange(0, 2).Draw(t, "complement") == 0 {
+					// a later branch states what the first declarer leaves open (no keyword is stated twice,
+					// so the open first-wins finding does not apply)
+					node = comp
+					cc.overlap = "complementary-later"
+					// what has been stated so far, by any branch: a third branch complements that
+					acc := *prev
+					if comp.Minimum != nil {
+						acc.Minimum = comp.Minimum
+					}
+					if comp.Maximum != nil {
+						acc.Maximum = comp.Maximum
+					}
+					if comp.MinLength != nil {
+						acc.MinLength = comp.MinLength
+					}
+					if comp.MaxLength != nil {
+						acc.MaxLength = comp.MaxLength
+					}
+					first[name] = &acc
+				} else if kind == model.KAllOf && !diffAllowed && !zeroLimit && rapid.Bool().Draw(t, "looser") {
 					// the open finding is "the first branch wins": that is right whenever the first branch
 					// is the strictest, so later branches may restate the property more loosely
 					node = c11Loosen(t, prev)
@@ -334,12 +426,16 @@ func TestC11(t *testing.T) {
 		c.Count("overlap." + cc.overlap)
 		files := []*model.File{cc.file}
 		var scen []string
+		var directed []map[string]string
 		switch rapid.IntRange(0, 5).Draw(rt, "scenario") {
 		case 0:
 			scen = addMixinScenario(rt, c, cc.file)
 		case 1:
 			files = append(files, addSameLocalRefSibling(rt, c, cc.file, cc.kind))
 			scen = []string{"ownitem", "sibling"}
+		case 2:
+			directed = addCollidingAllOfLists(rt, c, cc.file)
+			scen = []string{"colev", "colev_ent"}
 		}
 		// scenario properties stay optional: the documents of the main list do not carry them
 		var req []string
@@ -393,6 +489,9 @@ func TestC11(t *testing.T) {
 				c.NonTrivial(cs.Files[0].Text, key)
 				c.Count("subset.proper")
 			}
+		}
+		if len(directed) > 0 {
+			jobs = append(jobs, directedJobs(rt, c, cc.file.Root, o, "collidinglists", directed)...)
 		}
 		if cc.second != nil {
 			// the second list must behave as its own branches say, whatever the first list merged:
